@@ -68,6 +68,26 @@ def _cforms(v):
     return [v, lo32, s32, _signed64(v)]
 
 
+_QTAIL = re.compile(r' [A-Za-z_]+: "[^"]*"$')
+
+
+def _strip_quoted_tail(rest):
+    """a trailing ' label: "looked-up text"' (fsgetpath shows the path it resolved) is call context, not a result value"""
+    rest = list(rest)
+    if len(rest) >= 3 and isinstance(rest[-1], str) and rest[-1] == '"' and isinstance(rest[-2], Atom) \
+            and rest[-2].kind == 'bytes' and isinstance(rest[-3], str):
+        m = re.search(r' [A-Za-z_]+: "$', rest[-3])
+        if m:
+            head = rest[-3][:m.start()]
+            return rest[:-3] + ([head] if head else [])
+    if rest and isinstance(rest[-1], str):
+        m = _QTAIL.search(rest[-1])
+        if m:
+            head = rest[-1][:m.start()]
+            return rest[:-1] + ([head] if head else [])
+    return rest
+
+
 def run(ctx, st):
     name = st['name']
     a = [ctx.int('a%d' % i) for i in range(4)]
@@ -88,7 +108,7 @@ def run(ctx, st):
     cs = sweep.split_call(o1.pieces)
     L = 'C10/%s' % name
     ctx.check(L + '/shape', cs.ok)
-    rest = cs.rest
+    rest = _strip_quoted_tail(cs.rest)
     pipe = name == 'BSC_pipe'
     if name in EXEMPT:
         # the property exempts these calls altogether (they cannot fail or do not return)
@@ -150,5 +170,5 @@ def run(ctx, st):
         ctx.reach('outcome2:' + o2.kind)
     else:
         cs2 = sweep.split_call(o2.pieces)
-        ctx.check(L + '/result-independent-of-START', sweep.pieces_equal(cs.rest, cs2.rest))
+        ctx.check(L + '/result-independent-of-START', sweep.pieces_equal(rest, _strip_quoted_tail(cs2.rest)))
     ctx.reach()
